@@ -38,6 +38,8 @@ func C19(c *Ctx) {
 		c.caseSplitEquality("C19-1", fn, fldExactCase, "")
 	}
 
+	c.matcherDelegationRule("C19-5")
+
 	r.Rule("C19-2", "no case-mapping function (strings.ToLower/ToUpper/Title, unicode.To*) feeds the text of regexp.Compile/MustCompile or the subject of Regexp.MatchString in pkg/option; the subject is the unmodified identifier parameter")
 	n := 0
 	for _, s := range c.Calls(func(n string) bool {
